@@ -116,6 +116,11 @@ func genC03(g *Rng, tier string, emit func(Op)) {
 			emit(o)
 		}
 	}
+	for _, issig := range []bool{false, true} {
+		for _, o := range forgedNonunitUOps(g, ka, g.bits(256), g.bits(128), issig, "C03/forged-nonunit-U") {
+			emit(o)
+		}
+	}
 	emit(declSk(ka))
 	for i := 0; i < 2; i++ {
 		emit(Op{"op": "list-shared-number", "class": "shared-number-object", "label": "reject", "nomodel": true, "fkey": "C03/shared-number-object",
